@@ -634,6 +634,9 @@ class Interp:
                 hd['label'] = 1000 + base + i
             self.pending_collect = (base, len(holders), holders)
             results = await self.collect_call(collect, coros, holders)
+            if not isinstance(results, (list, tuple)):
+                # (collect() must return the list of results; anything else is reported as the impossible result -777777)
+                results = [-777777]
             self.emit(label, 'collected', [0 if v is None else v for v in results])
         elif h == 'pyuntil':
             # ['pyuntil', t0, None | ['time', t] | ['event', x], ['setup', instr...]]
